@@ -250,6 +250,29 @@ def _tempbox_unflatten(values, meta):
   return TempBox(out)
 
 
+class LateBox:
+  """A container type whose daglish traverser is registered LATE: only after a
+  first traversal has already met it as an opaque leaf."""
+
+  def __init__(self, children):
+    self.children = list(children)
+
+  def __repr__(self):
+    return f'LateBox({self.children!r})'
+
+  def __getitem__(self, i):
+    return self.children[i]
+
+
+def register_latebox():
+  from fiddle._src import daglish
+  daglish.register_node_traverser(
+      LateBox, flatten_fn=lambda b: (tuple(b.children), None),
+      unflatten_fn=lambda values, _: LateBox(values),
+      path_elements_fn=lambda b: tuple(daglish.Index(i)
+                                       for i in range(len(b.children))))
+
+
 def _register_tempbox():
   from fiddle._src import daglish
   daglish.register_node_traverser(
